@@ -75,7 +75,13 @@ type Step struct {
 	Prog  string `json:"prog"`
 	Entry string `json:"entry"`
 	K     int    `json:"k,omitempty"`   // renders in a row; 0 means 1
-	Var   int    `json:"var,omitempty"` // data variant 0..2 (see variant())
+	Var   int    `json:"var,omitempty"` // data variant 0..7 (see variant())
+	// Rev / Mt: the revision of the program's template files the step renders and the mtime
+	// (seconds relative to the initial one) they carry. When (Rev, Mt) differs from what the
+	// program's long-lived filesystem holds, every .vuego file of the program is written in
+	// that revision with that mtime before the step renders (see edits_test.go).
+	Rev int `json:"rev,omitempty"`
+	Mt  int `json:"mt,omitempty"`
 }
 
 // Case is a history. Mode "history" (default), "probe" (Steps[0] rendered K times on one
@@ -148,6 +154,12 @@ type seat struct {
 	eng   *engine
 	page  string
 	nodes []*html.Node
+
+	// for file edits: the filesystem of an engine of the program's own, the unrevised program
+	// and what the filesystem currently holds
+	fs      *memfs.FS
+	base    cat.Program
+	rev, mt int
 }
 
 func parseBody(body string) []*html.Node {
@@ -235,6 +247,7 @@ func fresh(p cat.Program, entry string, v int) (result, error) {
 type refKey struct {
 	prog, entry string
 	v           int
+	rev         int
 }
 
 var (
@@ -246,7 +259,7 @@ var (
 // whole table is filled by TestProp before the first history; a replayed case fills what it
 // needs before its history starts).
 func reference(p cat.Program, entry string, v int) (result, error) {
-	k := refKey{p.Name, entry, v}
+	k := refKey{p.Name, entry, v, 0}
 	refMu.Lock()
 	defer refMu.Unlock()
 	if r, ok := refTab[k]; ok {
@@ -436,7 +449,8 @@ func newWorld(c Case) (*world, error) {
 				entries = append(entries, other.Entry)
 			}
 		}
-		w.seats[st.Prog] = &seat{p: p, eng: newEngineFor(p, p.FS(), entries), page: "page.vuego"}
+		fsys := p.FS()
+		w.seats[st.Prog] = &seat{p: p, base: p, fs: fsys, eng: newEngineFor(p, fsys, entries), page: "page.vuego"}
 	}
 	return w, nil
 }
@@ -589,8 +603,13 @@ func judge(c Case, p cat.Program, where string, got, ref result, refName string,
 }
 
 func refFor(c Case, defRefs map[refKey]result, p cat.Program, entry string, v int) (result, error) {
-	if _, inline := lookupDef(c, p.Name); inline {
-		k := refKey{p.Name, entry, v}
+	return refForRev(c, defRefs, p, entry, v, 0)
+}
+
+// refForRev: p is already the revised program when rev != 0 (revisions are never in the table).
+func refForRev(c Case, defRefs map[refKey]result, p cat.Program, entry string, v, rev int) (result, error) {
+	if _, inline := lookupDef(c, p.Name); inline || rev != 0 {
+		k := refKey{p.Name, entry, v, rev}
 		if r, ok := defRefs[k]; ok {
 			return r, nil
 		}
@@ -623,6 +642,7 @@ func check(c Case) error {
 		alien []string
 	}
 	plans := make([]plan, len(c.Steps))
+	mtimes := map[string]map[int]int{} // program -> mtime -> revision written with it
 	for i, st := range c.Steps {
 		p, ok := lookup(c, st.Prog)
 		if !ok {
@@ -634,9 +654,13 @@ func check(c Case) error {
 		if st.Var < 0 || st.Var >= nVariants {
 			return fmt.Errorf("step %d: unknown data variant %d", i, st.Var)
 		}
-		ref, err := refFor(c, defRefs, p, st.Entry, st.Var)
+		if err := editAllowed(c, i, mtimes); err != nil {
+			return err
+		}
+		p = revise(p, st.Rev)
+		ref, err := refForRev(c, defRefs, p, st.Entry, st.Var, st.Rev)
 		if err != nil {
-			return fmt.Errorf("step %d (%s/%s) alone on a fresh engine: %w", i, st.Prog, st.Entry, err)
+			return fmt.Errorf("step %d (%s/%s rev %d) alone on a fresh engine: %w", i, st.Prog, st.Entry, st.Rev, err)
 		}
 		plans[i] = plan{p: p, ref: ref, alien: foreign(c, p)}
 	}
@@ -688,8 +712,15 @@ func check(c Case) error {
 	for i, st := range c.Steps {
 		pl := plans[i]
 		d := goData(pl.p, st.Var) // built once per step, used for all K calls
+		edited, err := w.seats[st.Prog].setRev(st.Rev, st.Mt)
+		if err != nil {
+			return fmt.Errorf("step %d: %w", i+1, err)
+		}
 		for r := 0; r < st.k(); r++ {
 			where := fmt.Sprintf("step %d of %d (%s/%s/v%d), render %d of %d", i+1, len(c.Steps), st.Prog, st.Entry, st.Var, r+1, st.k())
+			if edited != "" {
+				where += " [" + edited + "]"
+			}
 			if i > 0 {
 				where += fmt.Sprintf(", after %s/%s", c.Steps[i-1].Prog, c.Steps[i-1].Entry)
 			}
@@ -708,7 +739,7 @@ func check(c Case) error {
 		if !c.Recheck {
 			break
 		}
-		k := refKey{st.Prog, st.Entry, st.Var}
+		k := refKey{st.Prog, st.Entry, st.Var, st.Rev}
 		if seen[k] {
 			continue
 		}
@@ -837,6 +868,7 @@ func classify(c Case) (bool, []string) {
 		if st.k() >= 20 {
 			set["k>=20"] = true
 		}
+		editClasses(c, i, set)
 		if st.Var != 0 {
 			set["data-variant"] = true
 		}
@@ -1164,6 +1196,17 @@ func TestProp(t *testing.T) {
 			each("variants", Case{Steps: []Step{st(vNil, 3), st(0, 2), st(vNil, 1), st(0, 1)}})
 		}
 	}
+	// file edits between renders on one engine: forward, then twice BACKWARDS in mtime (the
+	// second time older than the original), then forward again; never an mtime used before
+	// (through the entries that read the page from the filesystem; the others are drawn by the
+	// rapid family "edits")
+	for _, cb := range cs {
+		if !usesTemplateCache(cb.entry) && cb.entry != "frag" {
+			continue
+		}
+		st := func(rev, mt, k int) Step { return Step{Prog: cb.p.Name, Entry: cb.entry, Rev: rev, Mt: mt, K: k} }
+		each("edits-core", Case{Steps: []Step{st(0, 0, 1), st(1, 2, 1), st(2, 1, 1), st(0, -1, 1), st(1, 3, 2)}})
+	}
 	// exhaustive core: all ordered pairs of (program, entry). For every A the other
 	// combinations are visited four per history: A, B1, A, B2, A, B3, A, B4, A - every B is
 	// rendered right after A and A right after every B, all on long-lived engines.
@@ -1244,6 +1287,7 @@ func TestProp(t *testing.T) {
 	run.Rapid(t, rec, "history", genHistory, classify, check)
 	run.Rapid(t, rec, "hazard", genHazard, classify, check)
 	run.Rapid(t, rec, "compose", genCompose, classify, check)
+	run.Rapid(t, rec, "edits", genEdits, classify, check)
 
 	// the whole table once more, on fresh engines, after everything else ran
 	if run.First() {
